@@ -61,6 +61,7 @@ def generate(rng, tier, i):
     scn = base(op, key, n, kernel=gen.draw_kernel(rng), latency=gen.draw_latency(rng, False, ['C', 'S']), seed16=rng.randrange(1, 0xFFFF),
                cm=rng.choice([1, 3, 255]), address=rng.getrandbits(32), fill=rng.randrange(1 << 16))
     scn['seed'] = rng.randrange(1 << 32)
+    scn['c_addr'] = rng.choice([0xF9, 0xF9, 0x00, 0x01, 253, rng.choice([a for a in range(254) if a not in (S_ADDR, I_ADDR)])])
     F = clean_count(scn)
     scn['intrude'] = {'k': rng.randrange(0, max(1, F - 1)), 'kind': rng.choice(['other_sa', 'own_sa']), 'repeat': rng.choice([1, 1, 2, 3])}
     return scn
@@ -92,7 +93,7 @@ def execute(scn, keep_log=False, hook=None):
         if intr['kind'] == 'other_sa':
             sa, ptr = I_ADDR, scn['address']
         else:
-            sa, ptr = C_ADDR, (scn['address'] + 0x10) & 0xFFFFFFFF
+            sa, ptr = net.c_addr, (scn['address'] + 0x10) & 0xFFFFFFFF
         d = [1, (1 << 4) + (1 << 1) + 1] + list(ptr.to_bytes(4, 'little')) + [7, 0]
         return rc.make_id(6, 0, PF_DM14, S_ADDR, sa), bytes(d), sa
 
@@ -124,7 +125,7 @@ def execute(scn, keep_log=False, hook=None):
         stats['other_sa_runs' if intr['kind'] == 'other_sa' else 'own_sa_runs'] = 1
         _cid, _d, isa = intruder_frame()
         # ---- the serving application never sees the intruder; exactly one proceed/notify with the legitimate arguments
-        want = {'command': 1 if scn['op'] == 'read' else 2, 'address': scn['address'], 'pointer_type': 1, 'object_count': n, 'sa': C_ADDR}
+        want = {'command': 1 if scn['op'] == 'read' else 2, 'address': scn['address'], 'pointer_type': 1, 'object_count': n, 'sa': net.c_addr}
         for pc in net.proceed_calls:
             if any(pc[f] != want[f] for f in want):
                 viol.append({'clause': 'intruder-passed-to-application', 'rank': 1, 'feat': feat,
